@@ -176,6 +176,7 @@ class OpsMixin:
             return None
         run.solver.push()
         npc = len(run.pc)
+        npers = len(run.persistent)
         saved = dict(run.decided)
         try:
             run.pc.append(c)
@@ -190,6 +191,11 @@ class OpsMixin:
             del run.pc[npc:]
             run.solver.pop()
             run.decided = saved
+            run.decided.update(run.decided_persist)
+            # choices about input symbols made inside the guarded region (lazy materialisation) hold for the whole path
+            for t_ in run.persistent[npers:]:
+                run.pc.append(t_)
+                run.solver.add(t_)
 
     def e_BoolOp(self, node, frame):
         is_and = isinstance(node.op, ast.And)
